@@ -271,6 +271,7 @@ def render(lines, rng=None, ops=(), eol="\n", conservative=True):
 DO_RE = re.compile(r"^\s*do\s+[A-Za-z_]\w*\s*=", re.I)
 ENDDO_RE = re.compile(r"^\s*end\s*do\s*$", re.I)
 MARKS = "&1+$x*"
+FIXED_COMMENT_TEXTS = [" note", " call x(a, &", " integer :: i &", "     x = 1 &", " &", " old: x = 1; integer ghost_v", " a; b; end subroutine", "     integer zz_ghost"]
 
 
 def to_fixed(lines, rng, labelled_do=True, conservative=True):
@@ -359,7 +360,7 @@ def to_fixed(lines, rng, labelled_do=True, conservative=True):
             lay.stem[last_n].add(ln.no)
             continue
         if rng.random() < 0.04:
-            emit(rng.choice(["C", "c", "*", "d", "!"]) + rng.choice([" note", " call x(a, &", " integer :: i &", "     x = 1 &", " &"]), ())
+            emit(rng.choice(["C", "c", "*", "d", "!"]) + rng.choice(FIXED_COMMENT_TEXTS), ())
         toks = [(k, s, oc, ln.no) for k, s, oc in ln.tokens]
         while toks and toks[0][0] == "ws":
             toks = toks[1:]
@@ -409,6 +410,9 @@ def to_fixed(lines, rng, labelled_do=True, conservative=True):
                 prefix = "     " + rng.choice(MARKS) + ("" if tight else "   ")
                 while piece and piece[0][0] == "ws":
                     piece = piece[1:]
+            if pn > 0 and rng.random() < 0.12:
+                # a comment line between a statement and its continuation line
+                emit(rng.choice(["C", "c", "*", "!"]) + rng.choice(FIXED_COMMENT_TEXTS), ())
             if tight and pn < len(pieces) - 1:
                 while piece and piece[-1][0] == "ws":
                     piece = piece[:-1]
